@@ -388,61 +388,83 @@ theorem valid_problems_imply_specification_met (t : ExternalTask) (S : Specifica
   ⟨fun hdir => external_backward_sound_specification t S hspec hpo hbyp fuel ps h hdir hnc hvalid,
    fun hdir => external_forward_sound_specification t S hspec hpo hbyp fuel ps h hdir hnc hvalid⟩
 
-/-- **The conclusion of C02 for every accepted program-vs-program task** - placeholders, simplification,
-    proof outline (lemmas, inductive lemmas, definitions) and all. For the translated theories `ΓL`, `ΓR`
-    and the accepted outline `po` of the task: if `rename_conflicting_symbols` changes nothing
-    (`NoConflictAll`, decidable on the task) and NO emitted problem - outline problems and final problems -
-    has a countermodel, then in each requested direction every stable model of one program, for input
-    facts and constants that satisfy the user-guide assumptions, has the same public part as some stable
-    model of the other program. (With an outline only this direction can hold: a false lemma has a
-    countermodel although the programs are equivalent.) -/
+/-- **C02, soundness for every accepted task, with NO side condition** (placeholders, simplification and
+    proof outline included): if none of the emitted problems has a countermodel, no interpretation that
+    satisfies the user-guide assumptions is a difference witness. `rename_conflicting_symbols` needs no
+    hypothesis any more: since fix 611037e it renames propositional predicates to free names, and an emitted
+    problem has a countermodel as soon as the problem before the renaming has one (`valid_family`). -/
+theorem external_sound_no_side_condition (t : ExternalTask) (hbyp : t.bypassTightness = false) (fuel : Nat)
+    (ps : List Problem) (h : externalProblems t fuel = .ok ps) :
+    ∃ (left : List SAnn) (ΓR : Theory),
+      (match t.specification with
+        | .inl PL => ∃ ΓL, theoryTranslate t t.phMap fuel PL = .ok ΓL ∧ left = controlTranslate t.userGuide.publicPreds ΓL
+        | .inr S => left = S.map (SAnn.replacePlaceholders t.phMap)) ∧
+      theoryTranslate t t.phMap fuel t.program = .ok ΓR ∧
+      ((∀ P ∈ ps, ∀ J ρ, ¬ Refutes J ρ P) →
+        ∀ (J : Interp) (ρ : Asg),
+          ¬ ((∀ a ∈ t.ugAss, sat J a.formula ρ) ∧
+            (∀ a ∈ left, lStable a = true → sat J a.formula ρ) ∧
+            (∀ a ∈ rightSide t ΓR, a.role = .assumption → sat J a.formula ρ) ∧
+            (((t.direction = .universal ∨ t.direction = .forward) ∧
+                (∀ a ∈ left, lFwdPrem a = true → sat J a.formula ρ) ∧ ¬ ProducesR t J) ∨
+             ((t.direction = .universal ∨ t.direction = .backward) ∧
+                ProducesR t J ∧ ∃ a ∈ left, lBwdConc a = true ∧ ¬ sat J a.formula ρ)))) :=
+  Outline.external_outline_sound_valid t hbyp fuel ps h
+
+/-- an emitted problem (after `rename_conflicting_symbols`) has a countermodel as soon as the parts it was
+    assembled from can be refuted: validity of what anthem emits implies validity of what it means -/
+theorem renaming_is_irrelevant_for_validity (name : String) (parts : List (List AnnF)) (d : Decomposition)
+    (hvalid : ∀ P ∈ (mkProblem name parts).decompose d, ∀ J ρ, ¬ Refutes J ρ P) :
+    ∀ (J : Interp) (ρ : Asg), ¬ SemRef J ρ parts :=
+  valid_family name parts d hvalid
+
+/-- **The conclusion of C02 for every accepted program-vs-program task - the whole statement, no side
+    condition.** Placeholders of any sort, simplification on or off, any decomposition and eq-break setting,
+    proof outlines with lemmas, inductive lemmas and definitions; only tightness must not be bypassed.
+    If NO emitted problem - outline problems and final problems - has a countermodel (in particular if
+    every emitted problem is a theorem), then in each requested direction every stable model of one
+    program, for input facts and constants that satisfy the user-guide assumptions, has the same public
+    part (extents of the input and output predicates) as some stable model of the other program.
+    (With an outline only this direction can hold: a false lemma has a countermodel although the programs
+    are equivalent; without an outline `external_refutes_programs` gives the converse.) -/
 theorem every_accepted_program_task_sound (t : ExternalTask) (PL : Asp.Program)
     (hspec : t.specification = .inl PL) (hbyp : t.bypassTightness = false)
-    (fuel : Nat) (ps : List Problem) (h : externalProblems t fuel = .ok ps) :
-    ∃ (ΓL ΓR : Theory) (po : ProofOutline),
-      theoryTranslate t t.phMap fuel PL = .ok ΓL ∧ theoryTranslate t t.phMap fuel t.program = .ok ΓR ∧
-      (Outline.NoConflictAll (assembledGen t (leftSide t ΓL) t.ugAss ΓR) ((rightSide t ΓR).filter isSpec)
-          ((leftSide t ΓL).filter lBwdConc) t.breakEq po →
-        (∀ P ∈ ps, ∀ J ρ, ¬ Refutes J ρ P) →
-        ((t.direction = .universal ∨ t.direction = .forward) →
-          ∀ (TL : PredI) (fc : FcI) (ρ : Asg),
-            (∀ a ∈ t.userGuide.formulas, a.role = .assumption → sat ⟨TL, fc⟩ (a.formula.replacePlaceholders t.phMap) ρ) →
-            Stable (PL.substSym (phNu t.phMap fc)) t.userGuide.inputs TL fc →
-            ∃ TR : PredI, Stable (t.program.substSym (phNu t.phMap fc)) t.userGuide.inputs TR fc ∧
-              ∀ (q : String) (ds : List Dom), (⟨q, ds.length⟩ : Pred) ∈ t.userGuide.publicPreds → (TR q ds ↔ TL q ds)) ∧
-        ((t.direction = .universal ∨ t.direction = .backward) →
-          ∀ (TR : PredI) (fc : FcI) (ρ : Asg),
-            (∀ a ∈ t.userGuide.formulas, a.role = .assumption → sat ⟨TR, fc⟩ (a.formula.replacePlaceholders t.phMap) ρ) →
-            Stable (t.program.substSym (phNu t.phMap fc)) t.userGuide.inputs TR fc →
-            ∃ TL : PredI, Stable (PL.substSym (phNu t.phMap fc)) t.userGuide.inputs TL fc ∧
-              ∀ (q : String) (ds : List Dom), (⟨q, ds.length⟩ : Pred) ∈ t.userGuide.publicPreds → (TL q ds ↔ TR q ds))) :=
-  programs_equivalent_of_valid_problems t PL hspec hbyp fuel ps h
+    (fuel : Nat) (ps : List Problem) (h : externalProblems t fuel = .ok ps)
+    (hvalid : ∀ P ∈ ps, ∀ J ρ, ¬ Refutes J ρ P) :
+    ((t.direction = .universal ∨ t.direction = .forward) →
+      ∀ (TL : PredI) (fc : FcI) (ρ : Asg),
+        (∀ a ∈ t.userGuide.formulas, a.role = .assumption → sat ⟨TL, fc⟩ (a.formula.replacePlaceholders t.phMap) ρ) →
+        Stable (PL.substSym (phNu t.phMap fc)) t.userGuide.inputs TL fc →
+        ∃ TR : PredI, Stable (t.program.substSym (phNu t.phMap fc)) t.userGuide.inputs TR fc ∧
+          ∀ (q : String) (ds : List Dom), (⟨q, ds.length⟩ : Pred) ∈ t.userGuide.publicPreds → (TR q ds ↔ TL q ds)) ∧
+    ((t.direction = .universal ∨ t.direction = .backward) →
+      ∀ (TR : PredI) (fc : FcI) (ρ : Asg),
+        (∀ a ∈ t.userGuide.formulas, a.role = .assumption → sat ⟨TR, fc⟩ (a.formula.replacePlaceholders t.phMap) ρ) →
+        Stable (t.program.substSym (phNu t.phMap fc)) t.userGuide.inputs TR fc →
+        ∃ TL : PredI, Stable (PL.substSym (phNu t.phMap fc)) t.userGuide.inputs TL fc ∧
+          ∀ (q : String) (ds : List Dom), (⟨q, ds.length⟩ : Pred) ∈ t.userGuide.publicPreds → (TL q ds ↔ TR q ds)) :=
+  programs_equivalent_of_valid_problems t PL hspec hbyp fuel ps h hvalid
 
-/-- **The conclusion of C02 for every accepted specification-vs-program task** (placeholders,
-    simplification and proof outline included). -/
+/-- **The conclusion of C02 for every accepted specification-vs-program task, no side condition.** -/
 theorem every_accepted_specification_task_sound (t : ExternalTask) (S : Specification)
     (hspec : t.specification = .inr S) (hbyp : t.bypassTightness = false)
-    (fuel : Nat) (ps : List Problem) (h : externalProblems t fuel = .ok ps) :
-    ∃ (ΓR : Theory) (po : ProofOutline),
-      theoryTranslate t t.phMap fuel t.program = .ok ΓR ∧
-      (Outline.NoConflictAll (assembledGen t (S.map (SAnn.replacePlaceholders t.phMap)) t.ugAss ΓR)
-          ((rightSide t ΓR).filter isSpec) ((S.map (SAnn.replacePlaceholders t.phMap)).filter lBwdConc) t.breakEq po →
-        (∀ P ∈ ps, ∀ J ρ, ¬ Refutes J ρ P) →
-        ((t.direction = .universal ∨ t.direction = .backward) →
-          ∀ (TL TR : PredI) (fc : FcI) (ρ : Asg),
-            (∀ (q : String) (ds : List Dom), (⟨q, ds.length⟩ : Pred) ∈ t.userGuide.publicPreds → (TL q ds ↔ TR q ds)) →
-            Stable (t.program.substSym (phNu t.phMap fc)) t.userGuide.inputs TR fc →
-            (∀ a ∈ t.userGuide.formulas, a.role = .assumption → sat ⟨TL, fc⟩ (a.formula.replacePlaceholders t.phMap) ρ) →
-            (∀ a ∈ S, lStable a = true → sat ⟨TL, fc⟩ (a.formula.replacePlaceholders t.phMap) ρ) →
-            ∀ a ∈ S, lBwdConc a = true → sat ⟨TL, fc⟩ (a.formula.replacePlaceholders t.phMap) ρ) ∧
-        ((t.direction = .universal ∨ t.direction = .forward) →
-          ∀ (TL : PredI) (fc : FcI) (ρ : Asg),
-            (∀ a ∈ t.userGuide.formulas, a.role = .assumption → sat ⟨TL, fc⟩ (a.formula.replacePlaceholders t.phMap) ρ) →
-            (∀ a ∈ S, lStable a = true → sat ⟨TL, fc⟩ (a.formula.replacePlaceholders t.phMap) ρ) →
-            (∀ a ∈ S, lFwdPrem a = true → sat ⟨TL, fc⟩ (a.formula.replacePlaceholders t.phMap) ρ) →
-            ∃ TR : PredI, Stable (t.program.substSym (phNu t.phMap fc)) t.userGuide.inputs TR fc ∧
-              ∀ (q : String) (ds : List Dom), (⟨q, ds.length⟩ : Pred) ∈ t.userGuide.publicPreds → (TR q ds ↔ TL q ds))) :=
-  specification_met_of_valid_problems t S hspec hbyp fuel ps h
+    (fuel : Nat) (ps : List Problem) (h : externalProblems t fuel = .ok ps)
+    (hvalid : ∀ P ∈ ps, ∀ J ρ, ¬ Refutes J ρ P) :
+    ((t.direction = .universal ∨ t.direction = .backward) →
+      ∀ (TL TR : PredI) (fc : FcI) (ρ : Asg),
+        (∀ (q : String) (ds : List Dom), (⟨q, ds.length⟩ : Pred) ∈ t.userGuide.publicPreds → (TL q ds ↔ TR q ds)) →
+        Stable (t.program.substSym (phNu t.phMap fc)) t.userGuide.inputs TR fc →
+        (∀ a ∈ t.userGuide.formulas, a.role = .assumption → sat ⟨TL, fc⟩ (a.formula.replacePlaceholders t.phMap) ρ) →
+        (∀ a ∈ S, lStable a = true → sat ⟨TL, fc⟩ (a.formula.replacePlaceholders t.phMap) ρ) →
+        ∀ a ∈ S, lBwdConc a = true → sat ⟨TL, fc⟩ (a.formula.replacePlaceholders t.phMap) ρ) ∧
+    ((t.direction = .universal ∨ t.direction = .forward) →
+      ∀ (TL : PredI) (fc : FcI) (ρ : Asg),
+        (∀ a ∈ t.userGuide.formulas, a.role = .assumption → sat ⟨TL, fc⟩ (a.formula.replacePlaceholders t.phMap) ρ) →
+        (∀ a ∈ S, lStable a = true → sat ⟨TL, fc⟩ (a.formula.replacePlaceholders t.phMap) ρ) →
+        (∀ a ∈ S, lFwdPrem a = true → sat ⟨TL, fc⟩ (a.formula.replacePlaceholders t.phMap) ρ) →
+        ∃ TR : PredI, Stable (t.program.substSym (phNu t.phMap fc)) t.userGuide.inputs TR fc ∧
+          ∀ (q : String) (ds : List Dom), (⟨q, ds.length⟩ : Pred) ∈ t.userGuide.publicPreds → (TR q ds ↔ TL q ds)) :=
+  specification_met_of_valid_problems t S hspec hbyp fuel ps h hvalid
 
 /-- Non-vacuity of the hypotheses of `valid_problems_imply_external_equivalence`: the task that compares
     `p(X) :- q(X).` with itself (input `q/1`, `p/1` private on both sides, no output) is accepted and
